@@ -393,7 +393,8 @@ Rename(st, old, new) ==
         \cup (IF IsGroup(t) /\ \E j \in IdxNamed(st, new) : st.lines[j].rt = t.rt
               THEN {[st |-> st, res |-> "unmodelled"]} ELSE {})   \* documented group merge: trace ends
     ELSE IF new \in PlaceholderIds(st)
-      THEN {[st |-> st, res |-> "unmodelled"]}   \* taking over a placeholder's name: not specified
+      \* the identifier is in use: other lines mention it and a placeholder carries it (C09)
+      THEN {Fail(st, "NotUniqueError")}
     ELSE
       {Ok([st EXCEPT !.lines = [j \in DOMAIN st.lines |->
             LET l1 == IF j = i THEN [st.lines[j] EXCEPT !.name = new] ELSE st.lines[j] IN
